@@ -118,6 +118,8 @@ def gen_world(rng, flavour, tiny=False, allow_running=True, force=None):
                     split.append(e)
             res = split
         workers.append({"name": "W%d" % (i + 1), "res": res})
+    if force.get("sched_fast_parent"):
+        workers[0]["res"] = [["CPU", rng.choice([2, 3])]]       # room for a parent and its child side by side
     pools = [workers] if (nw == 1 or rng.random() < 0.5) else [workers[:1], workers[1:]]
     avail = {}
     for w in workers:
@@ -167,6 +169,8 @@ def gen_world(rng, flavour, tiny=False, allow_running=True, force=None):
                 ss = [[fast, [["CPU", 1]]], [fast + rng.choice([2, 3, 5]), [["CPU", 1]]]]
                 if rng.random() < 0.5:
                     ss.reverse()
+            elif force.get("sched_fast_parent"):
+                ss = [[rng.choice([1, 2, 3]), [["CPU", 1]]]]
             elif rng.random() < 0.45:
                 s2 = strat()
                 if rng.random() < 0.15:       # a twin: same runtime, superset of the resources
@@ -275,11 +279,14 @@ def expected_readback(inst, res):
     return out, None
 
 
-def probe_spec(ctx, kinds, n=None):
+def probe_spec(ctx, kinds, n=None, max_pairs=None):
     """Bounded adversarial probing of the live model (harness/impl/tetri.py:run_probes): a few re-optimisations per world,
     the choices inside a world are drawn from a seed taken from ctx.rng."""
-    return {"kinds": list(kinds), "max": n if n is not None else (2 if ctx.tier == "quick" else 4),
+    spec = {"kinds": list(kinds), "max": n if n is not None else (2 if ctx.tier == "quick" else 4),
             "seed": ctx.rng.randrange(1 << 30)}
+    if max_pairs is not None:
+        spec["max_pairs"] = max_pairs
+    return spec
 
 
 def probe_readback(inst, probe):
